@@ -66,6 +66,15 @@ def playback(harness, features=None, timeout=900):
         dst = os.path.join(scratch, 'kani'); shutil.copytree(KDIR, dst, ignore=shutil.ignore_patterns('target'))
         env = dict(os.environ, CARGO_NET_OFFLINE='true'); env.pop('RUSTFLAGS', None)
         tdir = os.path.join(scratch, 'target')
+        if harness.endswith('_mustpanic'):
+            # #[kani::should_panic] harness that failed = the expected panic is unreachable: there is no trace to play back; its native twin
+            # (<harness>_native, same calls under catch_unwind on concrete members) is the replay
+            cmd = ['timeout', str(timeout), 'cargo', 'kani', 'playback', '-Z', 'concrete-playback']
+            if features: cmd += ['--features', features]
+            cmd += ['--', harness + '_native']
+            q = subprocess.run(cmd, cwd=dst, env=dict(env, CARGO_TARGET_DIR=tdir), stdout=subprocess.PIPE, stderr=subprocess.STDOUT, text=True)
+            failed = bool(re.search(r'test result: FAILED', q.stdout)); passed = bool(re.search(r'test result: ok. 1 passed', q.stdout))
+            return (True if failed else (False if passed else None)), 'native twin %s_native' % harness, q.stdout[-2000:]
         cmd = ['timeout', str(timeout), 'cargo', 'kani', '--target-dir', tdir, '-Z', 'concrete-playback', '--concrete-playback=print', '--harness', harness]
         if features: cmd += ['--features', features]
         p = subprocess.run(cmd, cwd=dst, env=env, stdout=subprocess.PIPE, stderr=subprocess.STDOUT, text=True)
